@@ -85,13 +85,15 @@ PROPS = [
     dict(id="C20", functions=DHT + KAD_LAWS, assumptions=COMMON + ["callbacks (Ask, Validate, AddPeer) are arbitrary but do not touch the iteration's local state",
          "slices.SortFunc permutes its slice and has no other effect (model)", "termination is not decided",
          "map keys of array type are compared element-wise (tuple encoding)"]),
-    dict(id="C19", functions=KAD_LAWS + f("p/kademlia", "(*Cache).bucketIndex"), assumptions=COMMON),
+    dict(id="C19", functions=KAD_LAWS + f("p/kademlia", "(*Cache).bucketIndex", "bitAt", "(*Cache).ForEach"), lemmas=["kademlia_bucket_order_32"],
+         assumptions=COMMON + ["bucket.forEach emits a bucket's entries sorted by distance (slices.SortFunc with DistanceLt as a strict weak order: assumed) and writes nothing of the cache (assumed frame)",
+                               "the step from bucket visiting order to nearest-first order of entries is the lemma lemmas/kademlia_bucket_order_32.smt2, checked for 32-bit keys on every run (bounded, not counted as proved)"]),
 ]
 
 def main():
     out = []
     for p in PROPS:
-        out.append({"id": p["id"], "level": p.get("level", "proof"), "functions": p["functions"],
+        out.append({"id": p["id"], "level": p.get("level", "proof"), "functions": p["functions"], "lemmas": p.get("lemmas", []),
                     "bounded": p.get("bounded", []), "assumptions": p.get("assumptions", [])})
     json.dump(out, open("/verif/props.json", "w"), indent=1)
     print("props.json:", ", ".join(f"{p['id']}({len(p['functions'])})" for p in PROPS))
